@@ -883,7 +883,21 @@ impl Version {
                     && sst.last_key.as_slice() <= last_key
                     && !compaction.inputs.contains(&Setsum::from_digest(sst.setsum))
                 {
-                    to_add.push(sst);
+                    // An sst that shares a boundary key with a sibling that stays behind cannot
+                    // be pulled in: the versions of that key would end up out of order across
+                    // levels.
+                    let strands_sibling = level > 0
+                        && this_level.ssts.iter().any(|x| {
+                            !Arc::ptr_eq(x, sst)
+                                && x.first_key <= sst.last_key
+                                && sst.first_key <= x.last_key
+                                && !(first_key <= x.first_key.as_slice()
+                                    && x.last_key.as_slice() <= last_key)
+                                && !compaction.inputs.contains(&Setsum::from_digest(x.setsum))
+                        });
+                    if !strands_sibling {
+                        to_add.push(sst);
+                    }
                 }
             }
             if !to_add.is_empty() {
